@@ -389,7 +389,10 @@ def execute(sp, spec):
     if k not in _cache:
         if len(_cache) > 20000:
             _cache.clear()
-        _cache[k] = _execute(sp, spec)
+        import warnings
+        with warnings.catch_warnings(), np.errstate(all='ignore'):
+            warnings.simplefilter('ignore')      # NaNs from degenerate geometry are irrelevant here
+            _cache[k] = _execute(sp, spec)
     return _cache[k]
 
 
@@ -612,16 +615,33 @@ def regenerate(sp, lean_dir):
     r = subprocess.run(['lake', 'build', 'Splipy.Generated.C11Obligations'], cwd=lean_dir, stdout=subprocess.PIPE,
                        stderr=subprocess.STDOUT, text=True)
     built = r.returncode == 0
+    thms = ['C11_contract_table_total', 'C11_contract_table_enumeration_complete', 'C11_contract_table_contracts_modelled']
+    from vlib import leanproof
+    axioms = {}
+    if built:
+        axioms = leanproof.print_axioms('Splipy.Generated.C11Obligations', thms)
+
+    def thm_ok(n):
+        return built and axioms.get(n) is not None and set(axioms[n]) <= leanproof.ALLOWED_AXIOMS
+
+    def thm_detail(n):
+        if not built:
+            return 'lake build Splipy.Generated.C11Obligations failed: ' + r.stdout[-600:]
+        if axioms.get(n) is None:
+            return 'theorem did not check'
+        return 'axioms: %s' % axioms[n]
     obligations = [
-        {'name': 'C11_contract_table_total', 'ok': built and not cc['missing'],
-         'detail': ('public operations without a table entry: %s' % cc['missing']) if cc['missing'] else ''},
-        {'name': 'C11_contract_table_enumeration_complete', 'ok': built},
-        {'name': 'C11_contract_table_contracts_modelled', 'ok': built},
+        {'name': 'C11_contract_table_total', 'ok': thm_ok('C11_contract_table_total') and not cc['missing'],
+         'detail': ('public operations without a table entry: %s' % cc['missing']) if cc['missing'] else thm_detail('C11_contract_table_total')},
+        {'name': 'C11_contract_table_enumeration_complete', 'ok': thm_ok('C11_contract_table_enumeration_complete'),
+         'detail': thm_detail('C11_contract_table_enumeration_complete')},
+        {'name': 'C11_contract_table_contracts_modelled', 'ok': thm_ok('C11_contract_table_contracts_modelled'),
+         'detail': thm_detail('C11_contract_table_contracts_modelled')},
         {'name': 'C11_contract_table_not_stale', 'ok': not cc['stale'],
          'detail': ('table entries whose operation no longer exists: %s' % cc['stale']) if cc['stale'] else ''},
     ]
     return {'module': 'Splipy.Generated.C11Obligations', 'public_operations': len(cc['public']),
             'table_entries': len(T.TABLE), 'contracted': sum(e.contracted for e in T.TABLE),
             'exempt': {k: sum(e.kind == k for e in T.TABLE) for k in T.EXEMPT},
-            'missing': cc['missing'], 'stale': cc['stale'], 'obligations': obligations,
+            'missing': cc['missing'], 'stale': cc['stale'], 'obligations': obligations, 'axioms': axioms,
             'build_ok': built, 'build_log_tail': '' if built else r.stdout[-3000:]}
